@@ -263,6 +263,14 @@ pub fn ctor(r: &mut Rep, ri: u16, pbase: u64) {
         }
         cpu().cr[3] = l4_phys;
     }
+    // the two reports say what they mean when rendered for a human ("reports 'not recursive' and 'not active' respectively")
+    {
+        r.ev(true);
+        let (a, b) = (format!("{}", InvalidPageTable::NotRecursive).to_lowercase(), format!("{}", InvalidPageTable::NotActive).to_lowercase());
+        if !a.contains("recursive") || a.contains("active") || !b.contains("active") || b.contains("recursive") {
+            r.viol("C20|InvalidPageTable|Display-text-does-not-say-which-of-the-two-conditions-failed", "ctordisplay", &format!("NotRecursive: {:?}; NotActive: {:?}", a, b));
+        }
+    }
     // the index it then uses: the first window address dereferenced for a page with p4 = 3 must be (R,R,R,3)
     let l4 = s.l4_addr();
     unsafe {
